@@ -24,16 +24,16 @@ pub(crate) fn s(x: &str) -> String {
     x.to_owned()
 }
 
-/// Build a node with up to two children (slot order = argument order).
-pub(crate) fn node(v: Option<ValueEntry>, mut children: Vec<(&str, StoreNode)>) -> StoreNode {
-    let tree = if children.is_empty() {
-        None
-    } else {
-        let c1 = children.pop().map(|(k, n)| (s(k), n));
-        let c0 = children.pop().map(|(k, n)| (s(k), n));
-        Some(Tree::from_slots(if c0.is_some() { [c0, c1] } else { [c1, None] }))
-    };
-    Node { value: v, tree, _key_type: PhantomData }
+/// State builders. NOTE: no `Vec` here - `Vec::pop`/`vec![]` on the way into the tree defeats CBMC's
+/// constant folding of every later key comparison (measured: memcmp unrolled 17x per lookup).
+pub(crate) fn n0(v: Option<ValueEntry>) -> StoreNode {
+    Node { value: v, tree: None, _key_type: PhantomData }
+}
+pub(crate) fn n1(v: Option<ValueEntry>, k0: &str, c0: StoreNode) -> StoreNode {
+    Node { value: v, tree: Some(Tree::from_slots([Some((s(k0), c0)), None])), _key_type: PhantomData }
+}
+pub(crate) fn n2(v: Option<ValueEntry>, k0: &str, c0: StoreNode, k1: &str, c1: StoreNode) -> StoreNode {
+    Node { value: v, tree: Some(Tree::from_slots([Some((s(k0), c0)), Some((s(k1), c1))])), _key_type: PhantomData }
 }
 
 /// Scalars describing a stored entry; the entry itself is never cloned in a harness.
@@ -53,7 +53,11 @@ impl E {
         if self.cas { ValueEntry::Cas(Value::Bool(self.b), self.ver) } else { ValueEntry::Plain(Value::Bool(self.b)) }
     }
     pub fn is(&self, v: Option<&Value>) -> bool {
-        matches!(v, Some(Value::Bool(x)) if *x == self.b)
+        // (accessor API common to the model and the real serde_json::Value)
+        match v {
+            Some(v) => v.as_bool() == Some(self.b),
+            None => false,
+        }
     }
     /// the version a `cget` must report for this entry
     pub fn cur(&self) -> u64 {
@@ -64,8 +68,8 @@ impl E {
 /// Does `store` hold exactly entry `e` (kind, value, version) at `key`?
 pub(crate) fn holds(store: &Store, key: &[String], e: &E) -> bool {
     match store.get_node(key).and_then(|n| n.value()) {
-        Some(ValueEntry::Cas(Value::Bool(b), v)) => e.cas && *b == e.b && *v == e.ver,
-        Some(ValueEntry::Plain(Value::Bool(b))) => !e.cas && *b == e.b,
+        Some(ValueEntry::Cas(val, v)) => e.cas && val.as_bool() == Some(e.b) && *v == e.ver,
+        Some(ValueEntry::Plain(val)) => !e.cas && val.as_bool() == Some(e.b),
         _ => false,
     }
 }
